@@ -3,8 +3,8 @@
    are re-checked against what the Python source says NOW.  Python floats are read as exact rationals; None = the function raises.
    Property theorems only (each closed by `exact` of a lemma of Proofs/GenDensityEq.v). *)
 From Coq Require Import ZArith List Bool QArith Qcanon Lia.
-From SG Require Import Base.QcUtil Base.PyLib Base.PyNum Base.PolyInt Gen.DensityGen Model.Gram
-  Proofs.GramHat Proofs.GramEntries Proofs.GramPD Proofs.GramNorm Proofs.KronSOS Proofs.StripeSOS Proofs.GramKron Proofs.GenDensityEq.
+From SG Require Import Base.QcUtil Base.PyLib Base.PyNum Base.PyNumSeq Base.PolyInt Gen.DensityGen Model.Gram
+  Proofs.GramHat Proofs.GramEntries Proofs.GramPD Proofs.GramNorm Proofs.KronSOS Proofs.StripeSOS Proofs.GramKron Proofs.GenDensityEq Proofs.GenDensityEq2.
 Import ListNotations.
 Open Scope Qc_scope.
 
@@ -77,3 +77,40 @@ Example C16_gen_nonvacuous :
   (* a degenerate hat (upper neighbour = node): the Python divides by zero *)
   DensityEstimation_hat_function_non_symmetric false [q 1 4] [(q 0 1, q 1 4)] [q 3 8] = None.
 Proof. repeat split; vm_compute; reflexivity. Qed.
+
+(* ---- phase 4: get_hat_domain (the domains used by the scalar code paths: large-grid right-hand side, right-hand-side reuse) returns,
+   for every interior grid point of strictly increasing stripes, exactly the domains of the model hats - in the plain and in the debug
+   branch; take_closest (neighbour search of the large-grid paths) = the model's take_closest, the library binary search
+   bisect_left = the model's linear scan on every strictly increasing list; without a right neighbour it runs into `assert False` *)
+Theorem C16_gen_get_hat_domain_is_model : forall debug ts stripes,
+  Forall2 (fun t xs => strictly_inc xs /\ In t (windows xs)) ts stripes ->
+  DensityEstimation_get_hat_domain (Z.of_nat (length ts)) debug (pts_of ts) stripes = Some (doms_of ts).
+Proof. exact gen_get_hat_domain_is_model. Qed.
+Theorem C16_gen_bisect_left_is_model : forall xs x, strictly_inc xs -> py_bisect_left xs x = Some (Z.of_nat (bisect_left xs x)).
+Proof. exact py_bisect_left_is_model. Qed.
+Theorem C16_gen_take_closest_is_model : forall xs x, strictly_inc xs ->
+  ((tc_pos xs x < length xs)%nat ->
+   DensityEstimation_take_closest xs x false = Some (take_closest xs x, [Z.of_nat (tc_pos xs x - 1); Z.of_nat (tc_pos xs x)])) /\
+  (tc_pos xs x = length xs -> DensityEstimation_take_closest xs x false = None).
+Proof. intros xs x Hs. split; [exact (gen_take_closest_is_model xs x Hs) | exact (gen_take_closest_raises xs x Hs)]. Qed.
+Print Assumptions C16_gen_get_hat_domain_is_model.
+Print Assumptions C16_gen_bisect_left_is_model.
+Print Assumptions C16_gen_take_closest_is_model.
+
+Example C16_gen_nonvacuous_domains :
+  let xs := [q 0 1; q 1 4; q 1 2; q 5 8; q 1 1] in
+  strictly_inc xs /\ In (mkH (q 1 4) (q 1 2) (q 5 8)) (windows xs) /\
+  option_map (map (fun d : Qc * Qc => (this (fst d), this (snd d))))
+    (DensityEstimation_get_hat_domain 2 false [q 1 2; q 1 4] [xs; [q 0 1; q 1 4; q 1 1]]) = Some [(1 # 4, 5 # 8); (0 # 1, 1 # 1)]%Q /\
+  option_map (fun r : list Qc * list Z => (map (fun v : Qc => this v) (fst r), snd r)) (DensityEstimation_take_closest xs (q 9 16) false)
+  = Some ([1 # 2; 5 # 8]%Q, [2; 3]%Z) /\
+  py_bisect_left xs (q 9 16) = Some 3%Z.
+Proof.
+  cbv zeta. split; [|split; [|split; [|split]]].
+  - repeat split; unfold Qclt; vm_compute; reflexivity.
+  - right. left. reflexivity.
+  - vm_compute. reflexivity.
+  - vm_compute. reflexivity.
+  - vm_compute. reflexivity.
+Qed.
+
